@@ -184,6 +184,11 @@ def main():
             d = n.get('designated')
             return base + ('Negated' if neg else '') + ('' if d is None else ('Designated' if d else 'Undesignated'))
         out['shapes'] = [shape(n) for n in snodes]
+        try:
+            last = tab.history[-1]
+            out['last_step'] = dict(rule=last.rule.name, same_branch=last.target.branch is br)
+        except Exception:
+            out['last_step'] = None
         model = br.model
         if model is None:
             out['model'] = None
